@@ -19,6 +19,8 @@ for i in ids:
     tech, text, note, ref = CLAIMS[i]
     if i in globals().get('R4', {}):
         text = text + " " + R4[i]
+    if i in globals().get('R5', {}):
+        text = text + " " + R5[i]
     checks.append({
         "property_id": i,
         "quick_cmd": f"bin/vcheck -property {i} -tier quick",
